@@ -229,6 +229,67 @@ fn slice_classes(ctx: &Ctx) {
     }
 }
 
+/// Vec<u8> sinks in every fill state: capacity 0..=24 x bytes already in the vector 0..=capacity
+/// (the append position decides the local alignment; spare capacity smaller than, equal to and
+/// larger than the transfer) x transfer length 1..=8 x guest address mod 8, exact and plain form.
+fn vec_sinks(ctx: &Ctx) {
+    let mut b = Bufs::new();
+    let gptr = b.guest.as_mut_ptr();
+    let glen = b.guest.len();
+    let guest_range = (gptr as usize, gptr as usize + glen);
+    for (i, x) in b.guest.iter_mut().enumerate() {
+        *x = 0x10 + i as u8;
+    }
+    let gcopy = b.guest.clone();
+    // SAFETY: guest outlives vs
+    let vs = unsafe { VolatileSlice::new(gptr, glen) };
+    for cap in 0..=24usize {
+        for fill in 0..=cap.min(17) {
+            for len in 1..=8usize {
+                for gm in 0..8usize {
+                    for exact in [true, false] {
+                        let ep = if exact { "write_all_volatile_to(Vec with spare capacity)" } else { "write_volatile_to(Vec with spare capacity)" };
+                        set_cur(ep, len, gm, fill % 8);
+                        let goff = b.gbase + gm;
+                        let mut sink: Vec<u8> = Vec::with_capacity(cap);
+                        sink.extend(std::iter::repeat(0xee).take(fill));
+                        let (r, events) = traced(|| {
+                            if exact {
+                                vs.write_all_volatile_to(goff, &mut sink, len).map(|_| len).map_err(|e| format!("{:?}", e))
+                            } else {
+                                vs.write_volatile_to(goff, &mut sink, len).map_err(|e| format!("{:?}", e))
+                            }
+                        });
+                        ctx.case(true);
+                        let l_addr = sink.as_ptr() as usize + fill;
+                        let g_addr = gptr as usize + goff;
+                        let mut bad: Option<(String, String)> = None;
+                        match r {
+                            Err(e) => bad = Some(("unexpected-error".into(), e)),
+                            Ok(n) if n > len => bad = Some(("count".into(), format!("reported {} of {} bytes", n, len))),
+                            Ok(n) => {
+                                // a plain write may be short; what it reports is what is judged
+                                if let Err(e) = judge(&events, Dir::FromGuest, g_addr, l_addr, n, guest_range) {
+                                    bad = Some(e);
+                                } else if sink.len() != fill + n || sink[fill..] != gcopy[goff..goff + n] || sink[..fill].iter().any(|x| *x != 0xee) {
+                                    bad = Some(("data".into(), format!("the vector holds {} bytes after appending {} to {}", sink.len(), n, fill)));
+                                } else if exact && n != len {
+                                    bad = Some(("count".into(), "exact form returned short".into()));
+                                }
+                            }
+                        }
+                        if let Some((k, d)) = bad {
+                            let key = format!("C06/slice/{}/{}", ep, k);
+                            let rp = if ctx.has_failed(&key) { Value::Null } else { json!({"entry_point": ep, "len": len, "guest_addr_mod_8": gm, "capacity": cap, "already_in_vector": fill}) };
+                            ctx.fail(&key, &format!("len {} guest%8={} capacity {} filled {}: {}", len, gm, cap, fill, d), rp);
+                        }
+                    }
+                }
+            }
+        }
+    }
+}
+
 /// Whole-object reads and writes (the local value is naturally aligned) at slice, region and
 /// guest-memory level, including objects that straddle a region boundary.
 fn object_classes(ctx: &Ctx) {
@@ -632,7 +693,7 @@ fn schedules(ctx: &Ctx) {
 
 pub fn run(tier: Tier, replay: Option<String>) -> i32 {
     let ctx = crate::new_ctx("C06", tier, "model_checking", &replay);
-    ctx.set_rule("(a) trace enumeration: for every transfer length 0..=8 x guest address mod 8 x local address mod 8 (576 classes) x 14 entry points that funnel into the byte-copy helper (write/read/write_slice/read_slice, copy_to/copy_from::<u8>, VolatileArrayRef<u8> copies, &[u8]/&mut [u8]/Vec<u8>/Cursor adapters, plain and exact stream forms) and for whole objects of 1..16 bytes at every guest address of two adjacent regions (incl. objects straddling the boundary) through the guest-memory layer: hook H1 records kind, address and width of every primitive volatile access; required: the guest bytes accessed are exactly the range, each once, every access naturally aligned, exactly ONE access of the full width when the length is 1/2/4/8 and both addresses are aligned to it, the data arrives, and a transfer that moved bytes without a recorded volatile access is a violation; atomic store/load for all 10 integer types at every offset: Ok iff aligned, value round-trips. (b) E3: all interleavings, with a scheduling point before every primitive access, of a writer flipping 0 <-> all-ones twice and a reader reading twice (u16, u32, u64, and a 16-byte object whose first chunk is the last aligned u64 of a region): the reader may only see the old or the new value. States = choice-tree nodes, traces = schedules executed on the real code.");
+    ctx.set_rule("(a) trace enumeration: for every transfer length 0..=8 x guest address mod 8 x local address mod 8 (576 classes) x 14 entry points that funnel into the byte-copy helper (write/read/write_slice/read_slice, copy_to/copy_from::<u8>, VolatileArrayRef<u8> copies, &[u8]/&mut [u8]/Vec<u8>/Cursor adapters, plain and exact stream forms; Vec<u8> sinks additionally in every fill state: capacity 0..=24 x bytes already held x length 1..=8 x guest address mod 8) and for whole objects of 1..16 bytes at every guest address of two adjacent regions (incl. objects straddling the boundary) through the guest-memory layer: hook H1 records kind, address and width of every primitive volatile access; required: the guest bytes accessed are exactly the range, each once, every access naturally aligned, exactly ONE access of the full width when the length is 1/2/4/8 and both addresses are aligned to it, the data arrives, and a transfer that moved bytes without a recorded volatile access is a violation; atomic store/load for all 10 integer types at every offset: Ok iff aligned, value round-trips. (b) E3: all interleavings, with a scheduling point before every primitive access, of a writer flipping 0 <-> all-ones twice and a reader reading twice (u16, u32, u64, and a 16-byte object whose first chunk is the last aligned u64 of a region): the reader may only see the old or the new value. States = choice-tree nodes, traces = schedules executed on the real code.");
     ctx.assume("one naturally aligned volatile access of <= 8 bytes is a single machine access (LLVM volatile semantics, x86-64/aarch64 single-copy atomicity); SC interleavings of whole primitive accesses");
     if ctx.replay_of.is_some() {
         println!("replay: deterministic enumeration; re-running it");
@@ -643,6 +704,7 @@ pub fn run(tier: Tier, replay: Option<String>) -> i32 {
         (format!("C06/{}", ep), format!("len {} guest%8={} local%8={}", len, gm, lm), json!({"entry_point": ep, "len": len, "guest_addr_mod_8": gm, "local_addr_mod_8": lm}))
     };
     crate::crash::guarded(&ctx, &describe, || slice_classes(&ctx));
+    crate::crash::guarded(&ctx, &describe, || vec_sinks(&ctx));
     crate::crash::guarded(&ctx, &describe, || object_classes(&ctx));
     orderings(&ctx);
     atomic_alignment(&ctx);
